@@ -1046,6 +1046,7 @@ func main() {
 			fmt.Fprintln(os.Stderr, "opgen:", err)
 			os.Exit(1)
 		}
+		writeFaultFacts(*repo, *out)
 	} else {
 		js, _ := json.MarshalIndent(facts, "", " ")
 		fmt.Println(string(js))
